@@ -18,3 +18,6 @@ def run(ctx):
     stream.error_states(ctx, P)
     stream.tee_writer(ctx, P)
     stream.fill_loops(ctx, P)
+    # every consumer path of Message ends through the trailing-data check (read / read_to_end / fill_buf agree)
+    from rules import c03
+    c03.trailing(ctx, P)
